@@ -127,9 +127,12 @@ SPEC = {
         "ASSUMPTIONS": ["lines are abstracted to their version-relevant kind (10 kinds); vlevel >= 1"],
     },
     "C14": {
-        "LEAN": {"modules": ["GfaProofs.Bridge.Seq", "GfaProofs.C14", "GfaProofs.C14Paths", "GfaProofs.C14Cover", "GfaProofs.C16"],
-                 "support": ["GfaModel.Seq", "GfaModel.LinearPaths"],
-                 "theorems": ["Gfa.C14.linearPaths_cover", "Gfa.C14.linearPaths_maximal", "Gfa.C14.linearPath_closed", "Gfa.C14.traverse_last",
+        "LEAN": {"modules": ["GfaProofs.Bridge.Seq", "GfaProofs.C14", "GfaProofs.C14Paths", "GfaProofs.C14Cover", "GfaProofs.C14Merge", "GfaProofs.C16"],
+                 "support": ["GfaModel.Seq", "GfaModel.LinearPaths", "GfaModel.MergeGraph"],
+                 "theorems": ["Gfa.C14Merge.mergePath_closed", "Gfa.C14Merge.mergePath_nodup", "Gfa.C14Merge.mergePath_members_gone",
+                              "Gfa.C14Merge.mergeAll_closed", "Gfa.C14Merge.mergeAll_nodup", "Gfa.C14Merge.mergePath_steps",
+                              "Gfa.C14Merge.lenAlong_sum", "Gfa.C14Merge.merged_length_matches",
+                              "Gfa.C14.linearPaths_cover", "Gfa.C14.linearPaths_maximal", "Gfa.C14.linearPath_closed", "Gfa.C14.traverse_last",
                               "Gfa.C14.linearPaths_chains", "Gfa.C14.linearPaths_disjoint", "Gfa.C14.linearPath_chain",
                               "Gfa.C14.linearPath_names", "Gfa.C14.traverse_chain", "Gfa.C14.otherEnds_sym", "Gfa.C14.joined_unique",
                               "Gfa.C14.rc_rc", "Gfa.C14.rc_length", "Gfa.C14.rc_append", "Gfa.C14.spell_length", "Gfa.C14.spell_prefix",
@@ -141,8 +144,14 @@ SPEC = {
                         "linearPaths_disjoint), and no chain is missed or cut short: two different segments so joined are members of one returned path "
                         "(linearPaths_cover, linearPaths_maximal) - i.e. the returned paths are exactly the maximal chains; a circular single segment "
                         "(joined to itself) is not a path (x.name != y.name)",
-                        "the theorems on the merged segment cover the sequence algebra (reverse complement, spelled length); how the graph is "
-                        "rewritten by the merge is decided by the text-level oracle on the real library"],
+                        "merge_linear_path / merge_linear_paths (default parameters: no redundant junctions, no tracking, names joined by '_') are "
+                        "modelled on the graph (GfaModel/MergeGraph.lean: merged segment with its sequence, LN/slen and tags, the dovetails of the two outer "
+                        "ends moved - positions of E lines recomputed -, members removed with their dependants) and compared with the library by complete "
+                        "observation after the merge, refusals included (name taken, overlap not M/=); proved: closure and distinct identifiers carry "
+                        "through (mergePath_closed/_nodup, mergeAll_*), no member identifier survives (mergePath_members_gone), the length written is "
+                        "the sum of member lengths minus overlaps and equals the spelled length (lenAlong_sum, merged_length_matches); which lines "
+                        "are left untouched (frame) and the options redundant_junctions / enable_tracking / cut_counts / merged_name are decided by the "
+                        "text-level oracle on the real library only"],
     },
     "C15": {
         "LEAN": {"modules": ["GfaProofs.Bridge.Multiply", "GfaProofs.C15", "GfaProofs.C15Graph"], "support": ["GfaModel.Multiply", "GfaModel.MultiplyGraph"],
